@@ -224,6 +224,37 @@ Definition enter_scope_value (cur : list string) (a : scope_arg) : list string *
   end.
 Definition scope_valid (sc : list string) : bool := forallb is_selector sc.
 
+(* ---------- the non-recursive parts of gin_wrapper ---------- *)
+(* 1507-1539: applicable bindings minus the names the caller supplies positionally
+   (REQUIRED positions keep their binding) *)
+Definition prep_bindings (cfg : cdict) (scope : list string) (c : cfgable) (args : list value) : pdict :=
+  let arg_names := supplied_positional_names (c_sig c) args in
+  drop_names arg_names (required_positions arg_names args)
+             (get_bindings_for cfg scope (c_sel c) true).
+(* 1541-1554: what goes into the operative record *)
+Definition prep_operative (c : cfgable) (args : list value) (kwargs : pdict) (new_kwargs : pdict) : pdict :=
+  let arg_names := supplied_positional_names (c_sig c) args in
+  let req_names := required_positions arg_names args in
+  let caller_req_kw := map fst (filter (fun kv => is_req (snd kv)) kwargs) in
+  drop_names (map fst kwargs) caller_req_kw
+    (drop_names arg_names req_names (supdate (configurable_defaults c) new_kwargs)).
+(* 1572-1604: REQUIRED substitution, missing list, caller kwargs last.
+   nk = the deep-copied (evaluated) bindings *)
+Definition merge_call (c : cfgable) (args : list value) (kwargs nk : pdict) : res (list value * pdict) :=
+  let sg := c_sig c in
+  let arg_names := supplied_positional_names sg args in
+  let caller_req_kw := map fst (filter (fun kv => is_req (snd kv)) kwargs) in
+  let '(new_args, nk, miss1) := fill_required arg_names args nk in
+  let miss2 := filter (fun r => negb (str_in r arg_names) && negb (smem r kwargs) && negb (smem r nk))
+                      (signature_required c) in
+  let miss3 := filter (fun r => negb (smem r nk)) caller_req_kw in
+  let kwargs' := filter (fun kv => negb (str_in (fst kv) caller_req_kw && smem (fst kv) nk)) kwargs in
+  let missing := miss1 ++ miss2 ++ miss3 in
+  match missing with
+  | _ :: _ => Raise ("RuntimeError:" ++ join "," (order_by_signature sg missing))
+  | [] => Ok (new_args, supdate nk kwargs')
+  end.
+
 (* ---------- evaluation of references (copy.deepcopy) and calls ---------- *)
 Definition lookup_sel (s : state) (full : string) : option cfgable := fget (to_key full) (sm_flat (reg s)).
 
@@ -319,17 +350,11 @@ with call (fuel : nat) (s : state) (sel : string) (args : list value) (kwargs : 
       | None => (s, Raise "ModelError")
       | Some c =>
           let sg := c_sig c in
-          let new_kwargs := get_bindings_for (config s) (current_scope s) sel true in
           let sstr := scope_str (current_scope s) in
           let arg_names := supplied_positional_names sg args in
           if existsb is_req (skipn (List.length arg_names) args) then (s, Raise "ValueError") else
-          let req_names := required_positions arg_names args in
-          let caller_req_kw := map fst (filter (fun kv => is_req (snd kv)) kwargs) in
-          let new_kwargs := drop_names arg_names req_names new_kwargs in
-          let oper := supdate (configurable_defaults c) new_kwargs in
-          let oper := drop_names arg_names req_names oper in
-          let oper := drop_names (map fst kwargs) caller_req_kw oper in
-          let s := oper_update s (sstr, sel) oper in
+          let new_kwargs := prep_bindings (config s) (current_scope s) c args in
+          let s := oper_update s (sstr, sel) (prep_operative c args kwargs new_kwargs) in
           (* copy.deepcopy(new_kwargs) *)
           let '(s, rk) := (fix go (s : state) (l : pdict) : state * res pdict :=
              match l with
@@ -344,16 +369,9 @@ with call (fuel : nat) (s : state) (sel : string) (args : list value) (kwargs : 
           match rk with
           | Raise e => (s, Raise e)
           | Ok nk =>
-              let '(new_args, nk, miss1) := fill_required arg_names args nk in
-              let miss2 := filter (fun r => negb (str_in r arg_names) && negb (smem r kwargs) && negb (smem r nk))
-                                  (signature_required c) in
-              let miss3 := filter (fun r => negb (smem r nk)) caller_req_kw in
-              let kwargs' := filter (fun kv => negb (str_in (fst kv) caller_req_kw && smem (fst kv) nk)) kwargs in
-              let missing := miss1 ++ miss2 ++ miss3 in
-              match missing with
-              | _ :: _ => (emit (OT "Missing" (map OS (order_by_signature sg missing))) s, Raise "RuntimeError")
-              | [] =>
-                  let final_kwargs := supdate nk kwargs' in
+              match merge_call c args kwargs nk with
+              | Raise e => (s, Raise e)
+              | Ok (new_args, final_kwargs) =>
                   match py_bind sg new_args final_kwargs with
                   | None => (s, Raise "TypeError")
                   | Some env =>
